@@ -8,6 +8,7 @@
    variables (incl. multi-product networks with shared raw materials, which the model does not cover).
    Cost FUNCTIONS (Python callables) are outside the model. *)
 From SV Require Import Sim.Model Sim.Inv_base Sim.Policy_thms Sim.Example.
+From SV Require Import Sim2.State2 Sim2.Model2 Sim2.Inv2a_tac Sim2.Inv2a_run Sim2.Wfb2 Sim2.Inv2b_tac Sim2.Inv2b_init Sim2.Main2b Sim2.Inv2c_cost Sim2.Main2c.
 
 Theorem C05_costs_match_spec : forall NW e n, let k := node_costs NW e n in
   (c_hc k, c_sc k, c_ithc k, c_rev k) = cost_spec NW e n /\ c_tc k = c_hc k + c_sc k + c_ithc k - c_rev k.
@@ -23,6 +24,84 @@ Theorem C05_mean_of_trials : forall (totals : list Q) (T : Q), ~ T == 0 ->
   qmean (map (fun x => x / T) totals) == (qsum totals / T) / qnat (length totals).
 Proof. exact mean_of_trials. Qed.
 
+(* ---- multi-product networks (Stage-2 model Sim2/Model2.v; Sim2/Inv2c_cost.v): holding = sum over products of rate x (IL+ + held items) + per RAW MATERIAL (once, even if
+   several products use it) the pricing supplier's rate x (raw-material stock + items held at the door from that supplier); stockout = rate x backorders per product;
+   in-transit = (in-transit, default holding) rate x everything in transit to the product's customers; total = sum; components >= 0 ---- *)
+Theorem C05_multi_costs_match_spec :
+  forall NW : net2,
+         priceC2b NW = true ->
+         forall (e : st2) (n : N),
+         In n (nodes2 NW) ->
+         let k := node_costs2 NW e n in
+         c_hc k == Inv2c_cost.holding_specC NW e n /\
+         c_sc k = Inv2c_cost.stockout_il_specC NW e n /\
+         c_ithc k = Inv2c_cost.in_transit_specC NW e n /\
+         c_rev k = Inv2c_cost.revenue_specC NW e n /\
+         c_tc k = c_hc k + c_sc k + c_ithc k - c_rev k.
+Proof. exact C05m_costs_match_spec_net. Qed.
+Theorem C05_multi_stockout_is_backorders :
+  forall (NW : net2) (inputs : inputs2),
+         Wfb2.good2b NW = true ->
+         Inv2a_run.dem_ok2 inputs ->
+         forall (e : st2) (n : N),
+         In e (run2 NW inputs) ->
+         c_sc (node_costs2 NW e n) == Inv2c_cost.stockout_specC NW e n.
+Proof. exact C05m_stockout_is_backorders. Qed.
+Theorem C05_multi_raw_material_charged_once :
+  forall (NW : net2) (e : st2) (n : N),
+         NoDup (n_rms (cfg2 NW n)) ->
+         (forall r : N,
+          In r (n_rms (cfg2 NW n)) <->
+          (exists k : N,
+             In k (n_prods (cfg2 NW n)) /\ In r (map fst (k_bom (PC NW n k))))) ->
+         qsumf (Inv2c_cost.rm_holdingC NW e n) (n_rms (cfg2 NW n)) ==
+         qsumf (Inv2c_cost.rm_holdingC NW e n) (Inv2c_cost.bom_rmsC NW n).
+Proof. exact C05m_raw_material_charged_once. Qed.
+Theorem C05_multi_total_is_sum :
+  forall (NW : net2) (recs : list st2),
+         total_cost2 NW recs =
+         qsum
+           (map
+              (fun e : st2 =>
+               qsum (map (fun n : N => c_tc (node_costs2 NW e n)) (nodes2 NW)))
+              recs).
+Proof. exact C05m_total_is_sum. Qed.
+Theorem C05_multi_costs_nonneg :
+  forall (NW : net2) (inputs : inputs2),
+         Wfb2.good2b NW = true ->
+         Inv2a_run.dem_ok2 inputs ->
+         ratesC2b NW = true ->
+         forall (e : st2) (n : N),
+         In e (run2 NW inputs) ->
+         In n (nodes2 NW) ->
+         let k := node_costs2 NW e n in
+         0 <= c_hc k /\ 0 <= c_sc k /\ 0 <= c_ithc k.
+Proof. exact C05m_costs_nonneg_run. Qed.
+Example C05_multi_nonvacuous : Main2b.goodB2b Main2b.exB2_net = true /\
+         Main2b.onceB2b Main2b.exB2_net = true /\
+         Wfb2.good2b Main2b.exB2_net = true /\
+         supC2b Main2b.exB2_net = true /\
+         priceC2b Main2b.exB2_net = true /\
+         ratesC2b Main2b.exB2_net = true /\
+         Inv2a_run.dem_ok2 Main2b.exB2_inputs /\
+         Inv2b_tac.sup_edge Main2b.exB2_net 3 (Nd 1) 10 /\
+         Inv2b_tac.sup_edge Main2b.exB2_net 3 (Nd 2) 10 /\
+         (let e := nth 1 (run2 Main2b.exB2_net Main2b.exB2_inputs) empty_st2 in
+          In e (run2 Main2b.exB2_net Main2b.exB2_inputs) /\
+          gq2 e (fOQFG, 3%N, Ext, 30%N) == 5 /\
+          gq2 e (fOQFG, 3%N, Ext, 31%N) == 4 /\
+          gq2 e (fOQ, 3%N, Nd 1, 10%N) == 22 /\
+          gq2 e (fOQ, 3%N, Nd 2, 10%N) == 0 /\
+          nbom (PC Main2b.exB2_net 3 30) 10 == 2 /\
+          nbom (PC Main2b.exB2_net 3 31) 10 == 3) /\
+         (let e := nth 3 (run2 Main2b.exB2_net Main2b.exB2_inputs) empty_st2 in
+          0 < c_sc (node_costs2 Main2b.exB2_net e 3) /\
+          0 < c_ithc (node_costs2 Main2b.exB2_net e 3) /\
+          0 < c_hc (node_costs2 Main2b.exB2_net e 4) /\
+          0 < c_rev (node_costs2 Main2b.exB2_net e 3) /\
+          0 < gq2 e (fRM, 4%N, Ext, 30%N) + gq2 e (fIDI, 4%N, Nd 3, 30%N)).
+Proof. exact main2c_nonvacuous. Qed.
+
 Example C05_nonvacuous : let e := nth 5 (run ex_net ex_inputs) empty_st in
   0 < c_hc (node_costs ex_net e 2%N) + c_sc (node_costs ex_net e 2%N) /\ 0 < c_ithc (node_costs ex_net e 2%N) + c_ithc (node_costs ex_net e 1%N).
 Proof. vm_compute. split; reflexivity. Qed.
@@ -31,3 +110,8 @@ Print Assumptions C05_costs_match_spec.
 Print Assumptions C05_total_is_sum.
 Print Assumptions C05_costs_nonneg.
 Print Assumptions C05_mean_of_trials.
+Print Assumptions C05_multi_costs_match_spec.
+Print Assumptions C05_multi_stockout_is_backorders.
+Print Assumptions C05_multi_raw_material_charged_once.
+Print Assumptions C05_multi_total_is_sum.
+Print Assumptions C05_multi_costs_nonneg.
